@@ -13,7 +13,8 @@ let parse_cfg (s : string) =
   let lb = g "lb" in
   let reps = List.init 3 (fun i ->
       fresh_rep (lv (g "lv").[i]) ((g "sl").[i] = '1') (lb <> "-" && int_of_string lb = i) (b "lr" && i = 2)) in
-  (b "fw", { c_rt = rt; c_stale = b "st"; c_read = b "rd"; c_has_labels = (lb <> "-"); c_leader_only = b "lo"; c_thr = b "thr";
+  let bo k = (try List.assoc k kv = "1" with Not_found -> false) in
+  (b "fw" || bo "inv", { c_rt = rt; c_stale = b "st"; c_read = b "rd"; c_has_labels = (lb <> "-"); c_leader_only = b "lo"; c_thr = b "thr";
             c_short_to = b "to"; c_max_sleep = n_of_int (int_of_string (g "ms")); c_val = b "val"; c_reps = reps })
 
 let parse_sym (s : string) : outcome =
@@ -54,7 +55,9 @@ let () =
     | "C" :: cfg :: script :: rands :: events :: result :: _total :: _excl :: _errs :: orc :: _ ->
         let (fw, c) = parse_cfg cfg in
         bump ("oracle:" ^ (if orc = "pass" then "pass" else "fail"));
-        if fw then begin incr skipped; bump "cfg:forwarding(oracles only)" end
+        let cmd = (try List.find (fun p -> String.length p > 4 && String.sub p 0 4 = "cmd=") (String.split_on_char ',' cfg) with Not_found -> "cmd=0") in
+        if cmd <> "cmd=0" then bump ("cmdtype:" ^ cmd);
+        if fw then begin incr skipped; bump "cfg:forwarding-or-preinvalidated(oracles only)" end
         else begin
           let sc = List.map parse_sym (split_list script ',') in
           let rs = List.map (fun p -> match String.split_on_char ':' p with
